@@ -78,6 +78,15 @@ struct Exec {
 	};
 	std::tuple<Pool<1>, Pool<2>, Pool<3>, Pool<4>> pools;
 	template<int D> auto pool() -> Pool<D>& { return std::get<D - 1>(pools); }
+	// zero-dimensional arrays live in their own pool and have their own (small) operation set
+	static constexpr bool HAS_D0 = Cfg::dmin == 0;
+	struct NoArr0 {};
+	using Arr0 = typename std::conditional_t<HAS_D0, typename Cfg::template array_t_lazy<0>, std::enable_if<true, NoArr0>>::type;
+	struct Pool0 {
+		alignas(16) unsigned char buf[NSLOT][sizeof(Arr0)];
+		auto at(int i) -> Arr0& { return *reinterpret_cast<Arr0*>(buf[i]); }
+		auto raw(int i) -> void* { return buf[i]; }
+	} pool0_;
 
 	Model       M;
 	ModelTraits T;
@@ -92,6 +101,7 @@ struct Exec {
 		T.serialization = Cfg::serialization;
 		T.tracked       = ET::tracked;
 		T.mpi           = Cfg::mpi;
+		T.ctor_default_inits = Cfg::default_init;
 		T.pocca         = Cfg::pocca;
 		T.pocma         = Cfg::pocma;
 		T.pocs          = Cfg::pocs;
@@ -104,7 +114,7 @@ struct Exec {
 	}
 
 	template<class F> bool with_dim(int D, F&& f) {
-		if(D < DMIN || D > DMAX) return false;
+		if(D < DMIN || D > DMAX || D < 1) return false;
 		switch(D) {
 		case 1: if constexpr(DMIN <= 1 && 1 <= DMAX) { f(std::integral_constant<int, 1>{}); return true; } break;
 		case 2: if constexpr(DMIN <= 2 && 2 <= DMAX) { f(std::integral_constant<int, 2>{}); return true; } break;
@@ -183,6 +193,42 @@ struct Exec {
 		return true;
 	}
 
+	bool valid0(int slot, std::string const& who, bool report_as_i1) {
+		if constexpr(HAS_D0) {
+			Arr0 const& a   = pool0_.at(slot);
+			char const* pre = report_as_i1 ? "I1" : "I5";
+			if(a.num_elements() != 1) { fail(report_as_i1 ? "I4-extents" : "I5-extents-inconsistent", who + ": a zero-dimensional array reports num_elements()=" + std::to_string(a.num_elements())); return false; }
+			auto const* base = raw_of(a.base());
+			int const   id   = W.find_block(base);
+			if(id < 0 || !W.blocks[static_cast<std::size_t>(id)].live || W.addr(W.blocks[static_cast<std::size_t>(id)].arena, W.blocks[static_cast<std::size_t>(id)].off) != reinterpret_cast<unsigned char const*>(base)) {
+				fail((std::string(pre) + "-dangling-base").c_str(), who + ": base() = " + W.describe(base) + " is not the start of a live block");
+				return false;
+			}
+			Block const& b = W.blocks[static_cast<std::size_t>(id)];
+			if(b.bytes != sizeof(E)) { fail((std::string(pre) + "-size-mismatch").c_str(), who + ": its block holds " + std::to_string(b.bytes / sizeof(E)) + " elements"); return false; }
+			if(b.arena != Cfg::arena_of(a.get_allocator())) fail("I1-foreign-arena", who + ": block lives in arena" + std::to_string(b.arena) + " but get_allocator() is on arena" + std::to_string(Cfg::arena_of(a.get_allocator())));
+			if constexpr(ET::tracked) {
+				if(!base[0].is_live()) { fail("I2-dead-object-in-array", who + ": its element is not alive"); return false; }
+			}
+			return true;
+		} else {
+			(void)slot; (void)who; (void)report_as_i1;
+			return false;
+		}
+	}
+	void resync0(int slot) {
+		if constexpr(HAS_D0) {
+			MArr& m = M.at(0, slot);
+			bool  ok = true;
+			m.D = 0;
+			m.v.assign(1, ET::read(*raw_of(pool0_.at(slot).base()), ok));
+			m.arena = Cfg::arena_of(pool0_.at(slot).get_allocator());
+			m.alive = true;
+			probe(P_DIRTY_RESYNC);
+		} else (void)slot;
+	}
+	bool run_real_d0(Op const& op);
+
 	template<int D> void resync(int slot) {
 		Arr<D>& a = pool<D>().at(slot);
 		MArr&   m = M.at(D, slot);
@@ -246,6 +292,23 @@ struct Exec {
 				}
 			});
 		}
+		if constexpr(HAS_D0) {
+			for(int i = 0; i < NSLOT; ++i) {
+				MArr const& m = M.at(0, i);
+				if(!m.alive) continue;
+				std::string const who = "array<0>#" + std::to_string(i);
+				if(!valid0(i, who, true)) continue;
+				++owners;
+				elems += 1;
+				bool      ok = true;
+				i64 const v  = ET::read(static_cast<E const&>(pool0_.at(i)), ok);
+				i64 const w  = ET::read(*raw_of(pool0_.at(i).base()), ok);
+				if(!ok) fail("LIFE-use-of-dead", who + ": holds an element that is not alive");
+				else if(v != w) fail("I4-value", who + ": two access paths to the same element disagree");
+				else if(m.v.size() != 1 || v != m.v[0]) fail(m.v.size() == 1 && m.v[0] == FRESH_I64 ? "P-wrote-trivial" : "I4-value", who + ": the element is " + std::to_string(v) + " but the model has " + (m.v.size() == 1 ? std::to_string(m.v[0]) : std::string("no element")));
+				if(Cfg::arena_of(pool0_.at(i).get_allocator()) != m.arena) fail("I4-allocator", who + ": get_allocator() is on arena" + std::to_string(Cfg::arena_of(pool0_.at(i).get_allocator())) + " but the model expects arena" + std::to_string(m.arena));
+			}
+		}
 		// I1: live blocks == owners
 		int live = 0;
 		for(int a = 0; a < World::NARENA; ++a) live += W.live_blocks(a);
@@ -262,6 +325,10 @@ struct Exec {
 							for(int i = 0; i < NSLOT; ++i)
 								if(M.at(DD, i).alive && pool<DD>().at(i).num_elements() > 0 && reinterpret_cast<unsigned char const*>(raw_of(pool<DD>().at(i).data_elements())) == W.addr(b.arena, b.off)) owned = true;
 						});
+					if constexpr(HAS_D0) {
+						for(int i = 0; i < NSLOT; ++i)
+							if(M.at(0, i).alive && reinterpret_cast<unsigned char const*>(raw_of(pool0_.at(i).base())) == W.addr(b.arena, b.off)) owned = true;
+					}
 					if(!owned) {
 						which         = "arena" + std::to_string(b.arena) + ".block#" + std::to_string(b.serial) + " (n=" + std::to_string(b.n) + ", allocated in step " + std::to_string(b.step) + ")";
 						leak_in_faulted_step_ = b.step >= 0 && static_cast<std::size_t>(b.step) < step_faulted_.size() && step_faulted_[static_cast<std::size_t>(b.step)];
@@ -344,8 +411,10 @@ struct Exec {
 
 		// pre-state needed by postconditions
 		void const* base_before = nullptr;
-		if(eff.expect_base_unchanged && eff.nt > 0)
+		if(eff.expect_base_unchanged && eff.nt > 0) {
 			with_dim(eff.tD[0], [&](auto Dc) { base_before = raw_of(pool<decltype(Dc)::value>().at(eff.ti[0]).data_elements()); });
+			if constexpr(HAS_D0) { if(eff.tD[0] == 0) base_before = raw_of(pool0_.at(eff.ti[0]).base()); }
+		}
 		bool involved_tainted = false;
 		for(int k = 0; k < eff.nt; ++k) involved_tainted |= tainted[eff.tD[k]][eff.ti[k]];
 		if(op.db >= DMIN && op.db <= DMAX && op.b >= 0 && op.b < NSLOT) involved_tainted |= tainted[op.db][op.b];
@@ -443,6 +512,7 @@ struct Exec {
 			for(int k = 0; k < eff.nt; ++k) {
 				if(eff.unspecified[k]) {
 					M.at(eff.tD[k], eff.ti[k]).alive = true;
+					if(eff.tD[k] == 0 && valid0(eff.ti[k], "moved-from array", false)) resync0(eff.ti[k]);
 					with_dim(eff.tD[k], [&](auto Dc) {
 						constexpr int DD = decltype(Dc)::value;
 						if(valid_array<DD>(pool<DD>().at(eff.ti[k]), "moved-from array", false)) resync<DD>(eff.ti[k]);
@@ -458,6 +528,10 @@ struct Exec {
 				if(eff.is_ctor && k == 0) continue;  // failed constructor: the slot stays not alive
 				if(!M.at(tD, ti).alive) continue;
 				tainted[tD][ti] = true;
+				if(tD == 0) {
+					if(valid0(ti, "array<0>#" + std::to_string(ti) + " after the failed operation", false)) resync0(ti);
+					continue;
+				}
 				with_dim(tD, [&](auto Dc) {
 					constexpr int DD = decltype(Dc)::value;
 					Arr<DD>&      a  = pool<DD>().at(ti);
@@ -497,6 +571,7 @@ struct Exec {
 		if(eff.expect_base_unchanged && !threw && eff.nt > 0) {
 			void const* after = nullptr;
 			with_dim(eff.tD[0], [&](auto Dc) { after = raw_of(pool<decltype(Dc)::value>().at(eff.ti[0]).data_elements()); });
+			if constexpr(HAS_D0) { if(eff.tD[0] == 0) after = raw_of(pool0_.at(eff.ti[0]).base()); }
 			if(after != base_before) fail("P-base-changed", eff.variant + " changed data_elements() of its target");
 		}
 		check_invariants();
